@@ -161,6 +161,13 @@ class DocGen:
             required = a["type"][0] == "nonnull" and a.get("default") is None
             if not required and self.rng.random() < 0.4:
                 continue
+            if required is False and a["type"][0] == "nonnull" and self.rng.random() < 0.25:
+                # nullable variable holding null at a non-null position that declares a default: legal document,
+                # the field fails at execution time (once per instance of the field)
+                vn = "v%d" % len(self.vars)
+                self.vars[vn] = (a["type"][1], None)
+                parts.append("%s: $%s" % (a["name"], vn))
+                continue
             if self.rng.random() < 0.3:
                 vn = "v%d" % len(self.vars)
                 t = a["type"]
@@ -393,11 +400,13 @@ class Oracle:
         if name == "Int":
             if adv:
                 return rng.choice([2**31, -(2**31) - 1, 2.5, "12", "abc", True, [1], {"a": 1}, 3.0, 10**30,
-                                   float("nan"), float("inf"), Opaque("bytes"), "", "3.0"])
+                                   float("nan"), float("inf"), Opaque("bytes"), "", "3.0", "nan", "inf", "1e999", " 7 ",
+                                   "2147483648", "-2147483649"])
             return rng.choice([0, 1, -1, 42, 2**31 - 1, -(2**31), 7])
         if name == "Float":
             if adv:
-                return rng.choice([float("nan"), float("inf"), "1.5", "abc", True, [1.5], 10**400, Opaque("tuple"), 3, ""])
+                return rng.choice([float("nan"), float("inf"), "1.5", "abc", True, [1.5], 10**400, Opaque("tuple"), 3, "",
+                                   "nan", "inf", "-Infinity", "1e999", " NaN ", "-1e400", "12.5e1", " 2.5 "])
             return rng.choice([0.0, 1.5, -2.25, 3.0, 1e10, 0.1])
         if name == "String":
             if adv:
